@@ -355,6 +355,12 @@ func runScenarios(c *vlib.Ctx, cfgs []config) {
 						continue
 					}
 					v, outcome, t := runBulk(plain, n, bv, false)
+					for attempt := 0; attempt < 3 && starved(v); attempt++ {
+						v, outcome, t = runBulk(plain, n, bv, false)
+					}
+					if starved(v) {
+						v = &violation{clause: "ENGINE", detail: "a wall-clock timeout inside portbase fired repeatedly (machine overloaded?): " + v.detail}
+					}
 					trans += t
 					states++
 					if outcome != "" {
@@ -366,6 +372,12 @@ func runScenarios(c *vlib.Ctx, cfgs []config) {
 		}
 		if plain.Backend != "hashmap" && !plain.Shadow {
 			v, outcome, t := runStorageError(plain, false)
+			for attempt := 0; attempt < 3 && starved(v); attempt++ {
+				v, outcome, t = runStorageError(plain, false)
+			}
+			if starved(v) {
+				v = &violation{clause: "ENGINE", detail: "a wall-clock timeout inside portbase fired repeatedly (machine overloaded?): " + v.detail}
+			}
 			trans += t
 			states++
 			if outcome != "" {
